@@ -185,6 +185,9 @@ func describeTime(s *Scope, obj Time, args List, depth int) Object {
 }
 
 func addTime(s *Scope, obj Time, args List, depth int) Object {
+	if len(args) != 1 {
+		minMaxPanic(s, depth, "time :add", len(args), 1, 1)
+	}
 	dur, ok := args[0].(Real)
 	if !ok {
 		TypePanic(s, depth, "duration", args[0], "real")
@@ -193,6 +196,9 @@ func addTime(s *Scope, obj Time, args List, depth int) Object {
 }
 
 func elapsedTime(s *Scope, obj Time, args List, depth int) Object {
+	if len(args) != 1 {
+		minMaxPanic(s, depth, "time :elapsed", len(args), 1, 1)
+	}
 	end, ok := args[0].(Time)
 	if !ok {
 		TypePanic(s, depth, "end", args[0], "time")
